@@ -6,7 +6,7 @@ import re
 
 import z3
 
-from engine import (ALL_TYPES, Agg, Cell, Closure, DnType, DnValue, IterV, MapV, N_BOUND, Oid, Opaque, Opt, OptVal, Ref, State, UNIT, VARIANTS, VecV, Z,
+from engine import (ALL_TYPES, EnumV, ListV, ListIter, Agg, Cell, Closure, DnType, DnValue, IterV, MapV, N_BOUND, Oid, Opaque, Opt, OptVal, Ref, State, UNIT, VARIANTS, VecV, Z,
                     to_oid)
 from mir import Unsupported, find
 
@@ -86,6 +86,11 @@ class Models:
                 for k, tgt in targets:
                     out.append((getattr(DnValue, "is_" + VARIANTS[k])(x.e), tgt))
                 return out
+            if isinstance(x, EnumV):
+                out = [(x.discr == k, tgt) for k, tgt in targets]
+                if other is not None:
+                    out.append((z3.And(*[x.discr != k for k, _ in targets]), other))
+                return out
             if isinstance(x, Opaque) and x.what == "result":
                 # Result<T, E>: data = (ok: z3 Bool, ok payload, err payload)
                 ok = x.data[0]
@@ -135,9 +140,24 @@ class Models:
             (r"^<DistinguishedNameIterator<'_> as Iterator>::next$", r"::next$", r"^&mut DistinguishedNameIterator"),
             (r"^<DistinguishedName as Default>::default$", r"::default$", None),
             (r"^write_distinguished_name$", r"^write_distinguished_name$", None),
+            (r"^GeneralSubtree::tag$", r"::tag$", r"^&GeneralSubtree$"),
+            (r"^SanType::tag$", r"::tag$", r"^&SanType$"),
+            (r"^write_x509_extension::<", None, None),
+            (r"^OtherNameValue::write_der$", r"::write_der$", r"^&OtherNameValue$"),
         ]
         for pat, name_re, a0 in table:
             if re.search(pat, c):
+                if name_re is None:
+                    # generic rcgen function: the instance for exactly this closure type
+                    cands = [f for f in self.fns if f.name == c or f.name.replace("crate::", "") == c]
+                    if len(cands) == 1:
+                        return cands[0]
+                    # dumps print generic instances once (un-monomorphised): fall back to the single generic body
+                    base = c.split("::<")[0]
+                    cands = [f for f in self.fns if f.name == base]
+                    if len(cands) == 1:
+                        return cands[0]
+                    raise Unsupported(f"generic body lookup {c}: {len(cands)} candidates")
                 if name_re == r"::default$":
                     cands = [f for f in self.fns if f.name.endswith("::default") and f.ret == "DistinguishedName"]
                     if len(cands) == 1:
@@ -200,6 +220,40 @@ class Models:
                 st.pc.append(z3.Implies(OptVal.is_Some_(z3.Select(m.arr, k)), z3.Or(*[z3.And(i < n, z3.Select(arr, i) == k) for i in range(N_BOUND)])))
             what = re.search(r"::(\w+)$", c).group(1)
             return one(Opaque("hashmap-iter", (what, m, IterV(arr, n, 0))))
+        # --- python-level lists (vectors of enum values)
+        if args and isinstance(deref(args[0]), ListV):
+            lv = deref(args[0])
+            if re.match(r"^Vec::<.*>::is_empty$", c) or re.match(r"^core::slice::<impl \[.*\]>::is_empty$", c):
+                return one(Z(z3.BoolVal(len(lv.items) == 0)))
+            if re.match(r"^core::slice::<impl \[.*\]>::iter$", c) or re.match(r"^<&Vec<.*> as IntoIterator>::into_iter$", c):
+                return one(ListIter(lv.items, 0))
+            if re.match(r"^<Vec<.*> as Deref>::deref$", c):
+                return one(Ref(args[0].cell))
+        if args and isinstance(args[0], Ref) and isinstance(args[0].cell.v, ListIter) and re.match(r"^<std::slice::Iter<'_, .*> as Iterator>::next$", c):
+            cell = args[0].cell
+            it = cell.v
+            if it.idx < len(it.items):
+                cell.v = ListIter(it.items, it.idx + 1)
+                return one(Opt(z3.BoolVal(True), Ref(Cell(it.items[it.idx]))))
+            return one(Opt(z3.BoolVal(False), None))
+        if re.match(r"^(yasna::)?Tag::context$", c):
+            return one(Opaque("tag-context", args[0]))
+        if re.match(r"^CidrSubnet::to_bytes$", c):
+            return one(Opaque("cidr-to-bytes", deref(args[0])))
+        if re.match(r"^(string::)?Ia5String::as_str$", c):
+            return one(Opaque("payload-as_str", deref(args[0])))
+        if re.match(r"^(yasna::models::)?ObjectIdentifier::from_slice$", c):
+            return one(Opaque("oid-from-slice", args[0]))
+        if re.match(r"^(std::net::)?Ipv[46]Addr::octets$", c):
+            return one(Opaque("ip-octets", deref(args[0])))
+        if re.match(r"^(yasna::)?construct_der::<", c):
+            clo = [a for a in args if isinstance(a, Closure)]
+            st.events.append(("open", "construct_der", ()))
+            out = []
+            for (s2, r) in eng.call_closure(clo[0], [Opaque("writer")], st):
+                s2.events.append(("close", "construct_der"))
+                out.append((s2, Opaque("der-bytes")))
+            return out
         # --- Vec / slices
         if re.match(r"^(Vec::<.*>::new|<Vec<.*> as Default>::default)$", c):
             return one(VecV(z3.K(z3.IntSort(), z3.BitVecVal(0, 3)), z3.IntVal(0)))
@@ -326,6 +380,14 @@ class Models:
         if isinstance(a, Opaque):
             if a.what in ("tag", "oid-const", "str", "const"):
                 return (a.what, a.data)
+            if a.what == "tag-context":
+                t = a.data
+                return ("tag-context", z3.simplify(t.e) if isinstance(t, Z) else str(t))
+            if a.what == "oid-from-slice":
+                return ("oid", self.ev_arg(a.data))
+            if a.what in ("cidr-to-bytes", "ip-octets"):
+                d = a.data
+                return (a.what, getattr(d, "what", type(d).__name__) if not isinstance(d, Opaque) else d.data)
             if a.what.startswith("payload-"):
                 inner = deref(a.data)
                 return (a.what, inner.e if isinstance(inner, Z) else inner)
